@@ -8,9 +8,70 @@ pub struct Counting;
 
 pub static PEAK: AtomicUsize = AtomicUsize::new(0);
 pub static HARD_LIMIT: AtomicUsize = AtomicUsize::new(usize::MAX);
+/// requests above this size that set a new peak have their call site recorded (C14)
+pub static CAPTURE_ABOVE: AtomicUsize = AtomicUsize::new(usize::MAX);
+static SITE: std::sync::Mutex<Option<String>> = std::sync::Mutex::new(None);
+
+thread_local! {
+    // set while a backtrace is being captured: the allocations that needs go straight to the system
+    static BUSY: std::cell::Cell<bool> = const { std::cell::Cell::new(false) };
+}
+
+fn busy() -> bool {
+    BUSY.try_with(|b| b.get()).unwrap_or(true)
+}
+
+/// innermost frame of the library under test: "module::Type<T>::function"
+fn site_of(bt: &str) -> String {
+    let lines: Vec<&str> = bt.lines().collect();
+    for i in 0..lines.len().saturating_sub(1) {
+        let at = lines[i + 1].trim();
+        if at.starts_with("at ") && at.contains("/datasketches/src/") && !at.contains("/src/verif.rs") {
+            let f = lines[i].trim();
+            let f = f.split_once(": ").map(|x| x.1).unwrap_or(f);
+            // function name without its path and generic arguments (which instance of a generic
+            // function survives code folding is the linker's choice), plus the source file
+            let mut plain = String::new();
+            let mut depth = 0;
+            for ch in f.chars() {
+                match ch {
+                    '<' => depth += 1,
+                    '>' => depth -= 1,
+                    c if depth == 0 => plain.push(c),
+                    _ => {}
+                }
+            }
+            let f = plain.rsplit("::").next().unwrap_or(&plain).to_string();
+            let file = at.split("/datasketches/src/").nth(1).unwrap_or("").split(':').next().unwrap_or("");
+            return format!("{file}:{f}");
+        }
+    }
+    "outside-the-library".to_string()
+}
+
+fn capture() -> String {
+    let _ = BUSY.try_with(|b| b.set(true));
+    let bt = std::backtrace::Backtrace::force_capture().to_string();
+    let s = site_of(&bt);
+    let _ = BUSY.try_with(|b| b.set(false));
+    s
+}
 
 fn note(size: usize) {
-    PEAK.fetch_max(size, Ordering::Relaxed);
+    let prev = PEAK.fetch_max(size, Ordering::Relaxed);
+    if size > prev && size > CAPTURE_ABOVE.load(Ordering::Relaxed) && size <= HARD_LIMIT.load(Ordering::Relaxed) {
+        let s = capture();
+        let _ = BUSY.try_with(|b| b.set(true));
+        if let Ok(mut g) = SITE.lock() {
+            *g = Some(s);
+        }
+        let _ = BUSY.try_with(|b| b.set(false));
+    }
+}
+
+/// the site of the current peak (if it was above CAPTURE_ABOVE)
+pub fn peak_site() -> String {
+    SITE.lock().ok().and_then(|g| g.clone()).unwrap_or_else(|| "unknown".to_string())
 }
 
 fn write_stderr(msg: &[u8]) {
@@ -38,10 +99,18 @@ fn refuse(size: usize) {
     }
     write_stderr(b"ALLOC-REFUSED ");
     write_stderr(&buf[i..]);
+    // the process is about to abort: name the requester first
+    let s = capture();
+    write_stderr(b"ALLOC-SITE ");
+    write_stderr(s.as_bytes());
+    write_stderr(b"\n");
 }
 
 unsafe impl GlobalAlloc for Counting {
     unsafe fn alloc(&self, layout: Layout) -> *mut u8 {
+        if busy() {
+            return unsafe { System.alloc(layout) };
+        }
         note(layout.size());
         if layout.size() > HARD_LIMIT.load(Ordering::Relaxed) {
             refuse(layout.size());
@@ -53,6 +122,9 @@ unsafe impl GlobalAlloc for Counting {
         unsafe { System.dealloc(ptr, layout) }
     }
     unsafe fn alloc_zeroed(&self, layout: Layout) -> *mut u8 {
+        if busy() {
+            return unsafe { System.alloc_zeroed(layout) };
+        }
         note(layout.size());
         if layout.size() > HARD_LIMIT.load(Ordering::Relaxed) {
             refuse(layout.size());
@@ -61,6 +133,9 @@ unsafe impl GlobalAlloc for Counting {
         unsafe { System.alloc_zeroed(layout) }
     }
     unsafe fn realloc(&self, ptr: *mut u8, layout: Layout, new_size: usize) -> *mut u8 {
+        if busy() {
+            return unsafe { System.realloc(ptr, layout, new_size) };
+        }
         note(new_size);
         if new_size > HARD_LIMIT.load(Ordering::Relaxed) {
             refuse(new_size);
@@ -72,6 +147,11 @@ unsafe impl GlobalAlloc for Counting {
 
 pub fn reset_peak() {
     PEAK.store(0, Ordering::Relaxed);
+    let _ = BUSY.try_with(|b| b.set(true));
+    if let Ok(mut g) = SITE.lock() {
+        *g = None;
+    }
+    let _ = BUSY.try_with(|b| b.set(false));
 }
 pub fn peak() -> usize {
     PEAK.load(Ordering::Relaxed)
